@@ -386,11 +386,8 @@ class Gen:
             k = self.rng.random()
             if k < 0.6:
                 return I(self.rng.choice(INTS + [5, 7, 10]))
-            if k < 0.93:
-                return self.var()
-            if k < 0.97:
-                return A(self.rng.choice(ATOMS))
-            return S('f', I(1))
+            # no atom / non-evaluable compound literals: the compiler checks them at load time
+            return self.var()
         if r < 0.85:
             op = self.rng.choice(BINOPS[:8]) if self.rng.random() < 0.8 else self.rng.choice(BINOPS)
             return S(op, self.expr(depth - 1), self.expr(depth - 1))
@@ -872,6 +869,7 @@ def run(ctx):
         cases += [gen_case(rng, "c%d" % i) for i in range(n)]
     # 1. the model first
     model = run_model_guarded([l for c in cases for l in c["model"]])
+    t_model = time.time() - t_start
     oof = 0
     oof_timeout = 0
     runnable = []
@@ -892,6 +890,7 @@ def run(ctx):
             runnable.append(ic)
     # 2. the implementation on the decided queries
     impl = core.run_impl_parallel([c["impl"] for c in runnable])
+    t_impl = time.time() - t_start - t_model
     retried = 0
     for c in runnable:
         bad = [q for q in c["run_qids"] if impl_items(impl.get(q)) is None]
@@ -966,6 +965,8 @@ def run(ctx):
         "goal_kinds_generated": feat,
         "cases_rerun_serially": retried,
         "wall_seconds": round(time.time() - t_start, 1),
+        "model_seconds": round(t_model, 1),
+        "impl_seconds": round(t_impl, 1),
         "exhaustive": False,
         "findings": findings,
     }
